@@ -183,7 +183,7 @@ class Ref:
         if k == "unjson":
             l = self.L(a[0])
             for v in a[1]:
-                e = Elem(int(v)); e.owner = l; l.xs.append(e)
+                e = Elem(0 if v == "null" else int(v)); e.owner = l; l.xs.append(e)
             return "ok"
         if k == "heap":
             self.heap, self.heap_lt = [], lt_of(a[0]); return "ok"
@@ -252,7 +252,7 @@ class Ref:
             return "[" + ",".join(str(i.val) for i in s.xs) + "]"
         if k == "sunjson":
             s = self.S(a[0]); self.sentinel(s)
-            new = [Item(int(v)) for v in a[1]]
+            new = [Item(0 if v == "null" else int(v)) for v in a[1]]
             for it in new:
                 it.owner = s
             s.xs = new + s.xs
